@@ -958,6 +958,51 @@ def r6_extracted_names(ctx):
     ctx.floor("extraction sites in load_hdf5", n, 1)
 
 
+def r7_whole_file_hash(ctx):
+    """entries are keyed by the hash of the measurement file: the hash must
+    cover the whole file (two files that agree in their first blocks are
+    different files)"""
+    fn = ctx.repo.mod("rate.io").func("hash_file")
+    ctx.analysed(fn)
+    loops = [n for n in walk_no_nested(fn, False)
+             if isinstance(n, (ast.While, ast.For)) and any(
+                 isinstance(c, ast.Call) and isinstance(
+                     c.func, ast.Attribute) and c.func.attr == "update"
+                 for c in ast.walk(n))]
+    if len(loops) != 1:
+        raise Undecided("hash_file: the read/update loop was not found")
+    lp = loops[0]
+    early = [x for x in ast.walk(lp) if isinstance(x, (ast.Break,
+                                                       ast.Return))]
+    ctx.check(not early, early[0] if early else lp,
+              "hash_file reads until the end of the file",
+              "hash_file leaves its read loop early "
+              f"(`{norm(early[0])[:30] if early else ''}` under "
+              + " and ".join(repr(a) for a in (conditions_at(
+                  early[0], stop=lp) if early else []))[:80]
+              + "): only a prefix of the file is hashed, so two "
+              "measurement files that start identically share their "
+              "entries - curves of the second are reported as rated, are "
+              "refused as 'different fit' or overwrite the first file's "
+              "ratings")
+    if isinstance(lp, ast.While):
+        t = norm(lp.test)
+        ctx.check("buf" in t or "len(" in t or t == "True", lp,
+                  f"loop continues while data were read ({t[:40]})",
+                  "the read loop of hash_file does not depend on the data "
+                  "read")
+    reads = [c for c in ast.walk(fn) if isinstance(c, ast.Call)
+             and isinstance(c.func, ast.Attribute) and c.func.attr == "read"]
+    ctx.floor("read calls in hash_file", len(reads), 1)
+    upd = [c for c in ast.walk(lp) if isinstance(c, ast.Call) and isinstance(
+        c.func, ast.Attribute) and c.func.attr == "update"]
+    for u in upd:
+        ctx.check(not conditions_at(u, stop=lp), u,
+                  "every block read is hashed",
+                  "hash_file skips blocks: the hash does not cover the "
+                  "whole file")
+
+
 RULES = [
     ("C16-R1", "writer and reader tables agree (datasets, attributes, "
      "inverse encodings)", r1_tables_agree),
@@ -970,4 +1015,6 @@ RULES = [
     ("C16-R5", "already-rated lookup uses the writer's key", r5_lookup_key),
     ("C16-R6", "embedded measurement files are extracted under names that "
      "are unique per stored file", r6_extracted_names),
+    ("C16-R7", "the file hash that keys the entries covers the whole file",
+     r7_whole_file_hash),
 ]
